@@ -776,6 +776,9 @@ func (w *World) doDevStart(p int, op Op) Obs {
 	w.Provider.WriteDeviceResponse(ctx, rec, dr, resp)
 	o.Status = rec.Code
 	o.New["dev"] = w.deliver("dev", resp.GetDeviceCode())
+	w.mu.Lock()
+	w.DevOwner[o.New["dev"]] = op.Client
+	w.mu.Unlock()
 	w.UCs[sigOf(resp.GetDeviceCode())] = resp.GetUserCode()
 	d := time.Duration(resp.GetExpiresIn()) * time.Second
 	if d%Tick == 0 {
@@ -827,7 +830,12 @@ func (w *World) doDevPoll(p int, op Op) Obs {
 	f := url.Values{}
 	f.Set("grant_type", "urn:ietf:params:oauth:grant-type:device_code")
 	f.Set("device_code", w.tok("dev", op.Dev))
-	w.setAuth(r, f, op.Client, op.Auth)
+	if op.Auth == "hdr_victim" { // the presenting public client in the header, the client that started the flow in the body
+		r.SetBasicAuth(url.QueryEscape(op.Client), "")
+		f.Set("client_id", w.DevOwner[op.Dev])
+	} else {
+		w.setAuth(r, f, op.Client, op.Auth)
+	}
 	finishPost(r, f)
 	o, _, _ := w.tokenCall(p, r, false)
 	return o
